@@ -235,9 +235,26 @@ class MboxHooks(Base):
         if self._ss(E, x) != 'out':
             return [Outcome(ret=fs(0)), Outcome(ret=fs(-1))]
         self.site('mbox:first-write-after-pos-is-known', x, g1(E, '$pos', 0) == 1 or True, '', E)
+        # what is written: a literal (whichever routine carries it), or the text of a global line buffer (whoever holds its address)
         lit = x.args[1].string if len(x.args) > 1 else None
+        a1 = next(iter(args[1])) if len(args) > 1 and args[1] is not TOP and len(args[1]) == 1 else None
+        if lit is None and isinstance(a1, tuple) and a1[0] == 'str':
+            lit = a1[1]
+        if lit is not None and len(args) > 2 and x.callee in ('substdio_put', 'substdio_bput') and args[2] != fs(len(lit)):
+            lit = None
         seq = tuple(g1(E, '$seq', ()))
-        item = ('lit', lit) if lit is not None else (x.args[1].path() if len(x.args) > 1 else '?')
+        if lit is not None:
+            item = ('lit', lit)
+        elif isinstance(a1, tuple) and a1[0] == '&' and a1[1].endswith('.s[0]'):
+            item = a1[1][:-3]
+        else:
+            item = x.args[1].path() if len(x.args) > 1 else '?'
+        if item == 'G:messline.s':
+            q = g1(E, '$gfrom')
+            self.site('mbox:quote-iff-gfrom(line)', x, q is not None and (q == 1) == (g1(E, '$last') == ('lit', '>')),
+                      'a message line for which gfrom() says %s is written %s a ">" in front of it' % (q, 'with' if g1(E, '$last') == ('lit', '>') else 'without'), E)
+        elif g1(E, '$last') == ('lit', '>'):
+            self.site('mbox:quote-iff-gfrom(line)', x, False, 'a ">" is followed by %s instead of the message line it quotes' % (item,), E)
         if len(seq) < 3:
             seq = seq + (item,)
         return [Outcome(ret=fs(0), sets={'$dirty': fs(1), '$seq': fs(seq), '$last2': fs(g1(E, '$last')), '$last': fs(item)}),
@@ -258,14 +275,21 @@ class MboxHooks(Base):
             if isinstance(a, tuple) and a[0] == '&':
                 mp = a[1]
         return [Outcome(ret=fs(-1), sets={'$failed': fs(1)}, log='read error'),
-                Outcome(ret=fs(0), sets={mp: fs(1), 'G:messline.len': fs(5)}, log='line'),
-                Outcome(ret=fs(0), sets={mp: fs(0), 'G:messline.len': fs(5)}, log='last line without newline'),
-                Outcome(ret=fs(0), sets={mp: fs(0), 'G:messline.len': fs(0)}, log='end of message')]
+                Outcome(ret=fs(0), sets={mp: fs(1), 'G:messline.len': fs(5), '$gfrom': TOP}, log='line'),
+                Outcome(ret=fs(0), sets={mp: fs(0), 'G:messline.len': fs(5), '$gfrom': TOP}, log='last line without newline'),
+                Outcome(ret=fs(0), sets={mp: fs(0), 'G:messline.len': fs(0), '$gfrom': TOP}, log='end of message')]
 
     def tracked_global(self, path):
         return path.startswith('G:messline') or path.startswith('$')
 
+    def materialize(self, E, path):
+        if path in ('G:messline.s', 'G:ufline.s', 'G:rpline.s', 'G:dtline.s'):
+            return fs(('&', path + '[0]'))
+        return TOP
+
     def prim_gfrom(self, E, x, args):
+        ok = args[0] == fs(('&', 'G:messline.s[0]')) and args[1] == E.get('G:messline.len')
+        self.site('mbox:quote-iff-gfrom(line)', x, ok, 'gfrom() is asked about %s (%s bytes), not about the line just read' % (x.args[0].src(), x.args[1].src()), E)
         return [Outcome(ret=fs(0), sets={'$gfrom': fs(0)}), Outcome(ret=fs(1), sets={'$gfrom': fs(1)})]
 
     def prim_ftruncate(self, E, x, args):
@@ -355,7 +379,7 @@ def run(ctx):
     if (MH.counts.get('seek_cur', 0) < 1 or MH.counts.get('return', 0) < 1 or MH.counts.get('exit', 0) < 2) and all(v[0] for v in MH.sites.values()):
         raise AnalysisBroken('mailfile: events not explored (%s)' % MH.counts)
     for inst, v in sorted(MH.sites.items()):
-        if inst != 'mbox:first-write-after-pos-is-known':
+        if inst not in ('mbox:first-write-after-pos-is-known', 'mbox:quote-iff-gfrom(line)'):
             r3.check(v[0], inst, v[1], v[2], v[3])
     oa = db.fn('open_append.c', 'open_append')
 
@@ -402,11 +426,11 @@ def run(ctx):
     r5.expect_min(4)
 
     r4 = rep.rule('C12.4-mbox-quoting', 'R-GUARD', '">" is written exactly for lines gfrom() accepts; gfrom skips ">"s and compares 5 bytes with "From "; the From_ line maps space, tab and newline of the sender to "-"')
-    gts = [c for c in mb.calls(('substdio_bput', 'substdio_put')) if c.args[1].string == '>']
-    ok = len(gts) == 1 and any(c.strip().k == 'call' and c.strip().callee == 'gfrom' and t is True for c, t in mb.guards(gts[0]) or [])
-    gcall = mb.calls('gfrom')
-    ok = ok and bool(gcall) and gcall[0].args[0].path() == 'G:messline.s' and gcall[0].args[1].path() == 'G:messline.len'
-    r4.check(ok, 'quote-iff-gfrom(line)', mb.unit + ':mailfile', '">" must be written under gfrom(messline.s, messline.len) only')
+    if 'mbox:quote-iff-gfrom(line)' in MH.sites:
+        v = MH.sites['mbox:quote-iff-gfrom(line)']
+        r4.check(v[0], 'quote-iff-gfrom(line)', v[1], v[2], v[3])
+    elif all(v[0] for v in MH.sites.values()):
+        raise AnalysisBroken('mailfile: no message line is written')
     gf = db.fn('gfrom.c', 'gfrom')
 
     class GF(QHooks):
